@@ -31,6 +31,8 @@ def run_check(prop, d, runs, out):
     env = dict(os.environ)
     env.pop('VERIF_REEXEC', None)
     env['PYTHONPATH'] = d
+    # enough witnesses for the runner's reproduction retries, then stop
+    env.setdefault('VERIF_STOP_AFTER_VIOLATIONS', '6')
     env['VERIF_REPLAY_DIR'] = os.path.join(out, 'replays')
     env['VERIF_EVID_DIR'] = os.path.join(out, 'evidence')
     cmd = [os.path.join(ROOT, 'check'), prop]
